@@ -10,7 +10,7 @@ CONSTANTS Classes = {1, 2, 3}
   OutModes <- NoOutParam
   MaxSteps = 0
   GenDepth = 0
-  FlagScripts <- FSSmall
+  FlagScripts <- FSLayout
   DestructorModes <- OnlyDestructors
 VIEW RealState
 CONSTRAINT Bound
